@@ -43,9 +43,8 @@ impl StreamFlags {
         W: io::Write,
     {
         // First byte is currently unused and hard-coded to null.
-        writer
-            .write(&[0x00, self.check_method as u8])
-            .map_err(Into::into)
+        writer.write_all(&[0x00, self.check_method as u8])?;
+        Ok(2)
     }
 }
 
